@@ -13,13 +13,13 @@ Open Scope Z_scope.
    trailing TLV bytes, followed by ANY payload, delivered in ANY chunking (stream <= 4096 bytes, header within the
    limit): BFE reports exactly the advertised source and destination address and port, hands the application exactly
    the payload, then EOF, and does not close the connection. *)
-Theorem C46_v2_proxy_roundtrip : forall limit chunks os od fam src dst sp dp tlv payload,
+Theorem C46_v2_proxy_roundtrip : forall tmo limit chunks os od fam src dst sp dp tlv payload,
   concat chunks = enc_v2_proxy fam src dst sp dp tlv ++ payload ->
   blen (concat chunks) <= 4096 ->
   ((fam = 17 \/ fam = 18) /\ blen src = 4 /\ blen dst = 4) \/ ((fam = 33 \/ fam = 34) /\ blen src = 16 /\ blen dst = 16) ->
   0 <= sp < 65536 -> 0 <= dp < 65536 ->
   16 + blen (block_ip src dst sp dp ++ tlv) <= eff_limit limit ->
-  conn_run limit chunks os od =
+  conn_run tmo limit chunks os od =
   VL [VL [VB (canon_ip src); VZ sp]; VL [VB (canon_ip dst); VZ dp]; VB payload; VZ 0; VZ 0].
 Proof. exact v2_proxy_roundtrip. Qed.
 Print Assumptions C46_v2_proxy_roundtrip.
@@ -28,24 +28,24 @@ Print Assumptions C46_v2_proxy_roundtrip.
    application and the connection was closed): for every v2 LOCAL header (any family byte, any address block and
    TLVs, which the receiver must skip), any payload and any chunking, the socket addresses are kept and the
    application receives exactly the payload. *)
-Theorem C46_v2_local : forall limit chunks os od fam block tlv payload,
+Theorem C46_v2_local : forall tmo limit chunks os od fam block tlv payload,
   concat chunks = enc_v2 32 fam block tlv ++ payload ->
   blen (concat chunks) <= 4096 ->
   16 + blen (block ++ tlv) <= eff_limit limit ->
-  conn_run limit chunks os od = VL [VL []; VL []; VB payload; VZ 0; VZ 0].
+  conn_run tmo limit chunks os od = VL [VL []; VL []; VB payload; VZ 0; VZ 0].
 Proof. exact v2_local_roundtrip. Qed.
 Print Assumptions C46_v2_local.
 
 (* C46_v1_roundtrip, TCP4: for every v1 line "PROXY TCP4 <src> <dst> <sport> <dport>\r\n" the specification's encoder
    produces (dotted-decimal addresses of 4 well-formed bytes, decimal ports), any payload, any chunking: exactly the
    advertised addresses and ports are reported and exactly the payload is delivered. *)
-Theorem C46_v1_tcp4_roundtrip : forall limit chunks os od src dst sp dp payload,
+Theorem C46_v1_tcp4_roundtrip : forall tmo limit chunks os od src dst sp dp payload,
   concat chunks = enc_v1_tcp4 src dst sp dp ++ payload ->
   blen (concat chunks) <= 4096 ->
   blen src = 4 -> blen dst = 4 -> wf_bytes src = true -> wf_bytes dst = true ->
   0 <= sp < 65536 -> 0 <= dp < 65536 ->
   blen (enc_v1_tcp4 src dst sp dp) <= eff_limit limit ->
-  conn_run limit chunks os od = VL [VL [VB src; VZ sp]; VL [VB dst; VZ dp]; VB payload; VZ 0; VZ 0].
+  conn_run tmo limit chunks os od = VL [VL [VB src; VZ sp]; VL [VB dst; VZ dp]; VB payload; VZ 0; VZ 0].
 Proof. exact v1_tcp4_roundtrip. Qed.
 Print Assumptions C46_v1_tcp4_roundtrip.
 
@@ -53,7 +53,7 @@ Print Assumptions C46_v1_tcp4_roundtrip.
    tokens (oracle, supplied and validated by the harness).  For every line "PROXY TCP6 <ta> <tb> <sport> <dport>\r\n"
    whose address tokens contain ':' (and no space/LF) and are accepted by ParseIP, exactly ParseIP's addresses
    (IPv4-mapped ones in 4-byte form, as net.IP prints them) and the ports are reported, payload unchanged. *)
-Theorem C46_v1_tcp6_roundtrip : forall limit chunks os od ta tb sp dp payload,
+Theorem C46_v1_tcp6_roundtrip : forall tmo limit chunks os od ta tb sp dp payload,
   concat chunks = enc_v1_tcp6 ta tb sp dp ++ payload ->
   blen (concat chunks) <= 4096 ->
   existsb (Z.eqb 32) ta = false -> existsb (Z.eqb 10) ta = false -> has_colon ta = true ->
@@ -61,38 +61,38 @@ Theorem C46_v1_tcp6_roundtrip : forall limit chunks os od ta tb sp dp payload,
   os <> [] -> od <> [] ->
   0 <= sp < 65536 -> 0 <= dp < 65536 ->
   blen (enc_v1_tcp6 ta tb sp dp) <= eff_limit limit ->
-  conn_run limit chunks os od = VL [VL [VB (canon_ip os); VZ sp]; VL [VB (canon_ip od); VZ dp]; VB payload; VZ 0; VZ 0].
+  conn_run tmo limit chunks os od = VL [VL [VB (canon_ip os); VZ sp]; VL [VB (canon_ip od); VZ dp]; VB payload; VZ 0; VZ 0].
 Proof. exact v1_tcp6_roundtrip. Qed.
 Print Assumptions C46_v1_tcp6_roundtrip.
 
 (* C46_v1_roundtrip, UNKNOWN (full statement, holds after repairs 53d0ae6/3df2ce0; refuted before: the short form was
    malformed for BFE and the long form closed the connection): "PROXY UNKNOWN\r\n", or "PROXY UNKNOWN <anything
    without LF>\r\n", keeps the socket addresses and delivers exactly the payload. *)
-Theorem C46_v1_unknown_roundtrip : forall limit chunks os od junk payload,
+Theorem C46_v1_unknown_roundtrip : forall tmo limit chunks os od junk payload,
   concat chunks = enc_v1_unknown junk ++ payload ->
   blen (concat chunks) <= 4096 ->
   (junk = [] \/ exists j, junk = 32 :: j) -> existsb (Z.eqb 10) junk = false ->
   blen (enc_v1_unknown junk) <= eff_limit limit ->
-  conn_run limit chunks os od = VL [VL []; VL []; VB payload; VZ 0; VZ 0].
+  conn_run tmo limit chunks os od = VL [VL []; VL []; VB payload; VZ 0; VZ 0].
 Proof. exact v1_unknown_roundtrip. Qed.
 Print Assumptions C46_v1_unknown_roundtrip.
 
 (* C46_no_header_passthrough_partial: a stream whose first byte is neither 'P' nor CR is passed through untouched in
    any chunking.  (Full statement "no signature => untouched" is refuted for short streams starting with 'P'/CR:
    known finding 1, kf_C46.) *)
-Theorem C46_no_header_passthrough_partial : forall limit chunks os od b rest,
+Theorem C46_no_header_passthrough_partial : forall tmo limit chunks os od b rest,
   concat chunks = b :: rest -> b <> 80 -> b <> 13 -> blen (concat chunks) <= 4096 ->
-  conn_run limit chunks os od = VL [VL []; VL []; VB (b :: rest); VZ 0; VZ 0].
+  conn_run tmo limit chunks os od = VL [VL []; VL []; VB (b :: rest); VZ 0; VZ 0].
 Proof. exact no_header_passthrough. Qed.
 Print Assumptions C46_no_header_passthrough_partial.
 
 (* ... and the same for streams that do start with 'P' or CR but are not a signature, as soon as 12 bytes can be
    read (stream and header limit >= 12).  Together with the previous theorem this covers every signature-less
    stream outside the finding class kf_C46 = 1 (short_sig_first). *)
-Theorem C46_no_header_passthrough_sig_partial : forall limit chunks os od,
+Theorem C46_no_header_passthrough_sig_partial : forall tmo limit chunks os od,
   is_prefix SIGV1 (concat chunks) = false -> is_prefix SIGV2 (concat chunks) = false ->
   12 <= blen (concat chunks) -> 12 <= eff_limit limit -> blen (concat chunks) <= 4096 ->
-  conn_run limit chunks os od = VL [VL []; VL []; VB (concat chunks); VZ 0; VZ 0].
+  conn_run tmo limit chunks os od = VL [VL []; VL []; VB (concat chunks); VZ 0; VZ 0].
 Proof. exact no_header_passthrough_sig. Qed.
 Print Assumptions C46_no_header_passthrough_sig_partial.
 
@@ -100,46 +100,46 @@ Print Assumptions C46_no_header_passthrough_sig_partial.
    application receives nothing and the connection is closed. *)
 Theorem C46_no_header_passthrough_refuted :
   exists chunks, spec_classify 0 [] [] (concat chunks) = SNoHeader
-                 /\ conn_run 0 chunks [] [] = VL [VL []; VL []; VB []; VZ 0; VZ 1]
+                 /\ conn_run false 0 chunks [] [] = VL [VL []; VL []; VB []; VZ 0; VZ 1]
                  /\ short_sig_first 0 (concat chunks) = true.
 Proof. exact no_header_refuted_lemma. Qed.
 Print Assumptions C46_no_header_passthrough_refuted.
 
 (* C46_malformed_no_data: whenever the header reader reports an error (malformed or truncated header, header longer
    than the limit), the application receives no byte, the addresses stay the socket's, and the connection is closed. *)
-Theorem C46_malformed_no_data : forall limit chunks os od code r',
-  proxy_read os od (mkRd [] (ne_filter chunks) (eff_limit limit) 0 false) = (RErr code, r') ->
-  conn_run limit chunks os od = VL [VL []; VL []; VB []; VZ code; VZ 1].
+Theorem C46_malformed_no_data : forall tmo limit chunks os od code r',
+  proxy_read os od (mkRd [] (ne_filter chunks) (eff_limit limit) 0 false (end_of tmo)) = (RErr code, r') ->
+  conn_run tmo limit chunks os od = VL [VL []; VL []; VB []; VZ code; VZ 1].
 Proof. exact malformed_no_data. Qed.
 Print Assumptions C46_malformed_no_data.
 
 (* The executable property the harness evaluates on the implementation (prop_C46: an independent classifier of the
    stream written from proxy-protocol.txt, compared with the observation) holds of the model on every conformant
    v2 PROXY header in any chunking, and such an input never belongs to a known-finding class. *)
-Theorem C46_prop_of_model_v2_proxy : forall limit chunks os od fam src dst sp dp tlv payload,
+Theorem C46_prop_of_model_v2_proxy : forall tmo limit chunks os od fam src dst sp dp tlv payload,
   concat chunks = enc_v2_proxy fam src dst sp dp tlv ++ payload ->
   blen (concat chunks) <= 4096 ->
   ((fam = 17 \/ fam = 18) /\ blen src = 4 /\ blen dst = 4) \/ ((fam = 33 \/ fam = 34) /\ blen src = 16 /\ blen dst = 16) ->
   0 <= sp < 65536 -> 0 <= dp < 65536 ->
   16 + blen (block_ip src dst sp dp ++ tlv) <= eff_limit limit ->
-  prop_C46 (in_C46 limit chunks os od) (run_C46 (in_C46 limit chunks os od)) = true
-  /\ kf_C46 (in_C46 limit chunks os od) = 0.
+  prop_C46 (in_C46 tmo limit chunks os od) (run_C46 (in_C46 tmo limit chunks os od)) = true
+  /\ kf_C46 (in_C46 tmo limit chunks os od) = 0.
 Proof. exact prop_C46_v2_proxy. Qed.
 Print Assumptions C46_prop_of_model_v2_proxy.
 
 (* Non-vacuity / concrete instances, incl. v1 (TCP4 delivered byte by byte, and the short UNKNOWN form). *)
 Example C46_ex_v2 :
   concat ex_chunks_v2 = enc_v2_proxy 17 [1; 2; 3; 4] [5; 6; 7; 8] 80 443 [9; 9; 9] ++ [104; 105]
-  /\ conn_run 0 ex_chunks_v2 [] [] = VL [VL [VB [1; 2; 3; 4]; VZ 80]; VL [VB [5; 6; 7; 8]; VZ 443]; VB [104; 105]; VZ 0; VZ 0].
+  /\ conn_run false 0 ex_chunks_v2 [] [] = VL [VL [VB [1; 2; 3; 4]; VZ 80]; VL [VB [5; 6; 7; 8]; VZ 443]; VB [104; 105]; VZ 0; VZ 0].
 Proof. exact ex_v2_lemma. Qed.
 Example C46_ex_local :
   concat ex_chunks_local = enc_v2 32 0 [] [] ++ [71; 69; 84]
-  /\ conn_run 0 ex_chunks_local [] [] = VL [VL []; VL []; VB [71; 69; 84]; VZ 0; VZ 0].
+  /\ conn_run false 0 ex_chunks_local [] [] = VL [VL []; VL []; VB [71; 69; 84]; VZ 0; VZ 0].
 Proof. exact ex_local_lemma. Qed.
 Example C46_ex_v1 :
-  conn_run 0 (map (fun b => [b]) ex_v1) [] [] = VL [VL [VB [1; 2; 3; 4]; VZ 80]; VL [VB [5; 6; 7; 8]; VZ 443]; VB [104; 105]; VZ 0; VZ 0]
-  /\ conn_run 0 [enc_v1_unknown [] ++ [104; 105]] [] [] = VL [VL []; VL []; VB [104; 105]; VZ 0; VZ 0].
+  conn_run false 0 (map (fun b => [b]) ex_v1) [] [] = VL [VL [VB [1; 2; 3; 4]; VZ 80]; VL [VB [5; 6; 7; 8]; VZ 443]; VB [104; 105]; VZ 0; VZ 0]
+  /\ conn_run false 0 [enc_v1_unknown [] ++ [104; 105]] [] [] = VL [VL []; VL []; VB [104; 105]; VZ 0; VZ 0].
 Proof. exact ex_v1_lemma. Qed.
 Example C46_ex_malformed :
-  conn_run 0 [[13; 10; 13; 10; 0; 13; 10; 81; 85; 73; 84; 10; 34; 17; 0; 0; 104; 105]] [] [] = VL [VL []; VL []; VB []; VZ 2; VZ 1].
+  conn_run false 0 [[13; 10; 13; 10; 0; 13; 10; 81; 85; 73; 84; 10; 34; 17; 0; 0; 104; 105]] [] [] = VL [VL []; VL []; VB []; VZ 2; VZ 1].
 Proof. exact ex_malformed_lemma. Qed.
